@@ -551,7 +551,9 @@ HIST_FAMILIES = {
                # in an output file for an unset end, and may come back through the setter
                ['P_top', -1], ['P_surface', -1]],
     'guillot': [['T_irr', 800.0], ['T_irr', 2200.0], ['kappa_irr', 0.1], ['kappa_irr', 0.0], ['kappa_v1', 0.05],
-                ['kappa_v2', 0.0005], ['alpha', 0.1], ['alpha', 0.9], ['T_int_guillot', 600.0]],
+                ['kappa_v2', 0.0005], ['alpha', 0.1], ['alpha', 0.9], ['T_int_guillot', 600.0],
+                # a channel weight outside [0, 1] (the closed form is defined for it and the constructor takes it)
+                ['alpha', 1.25], ['alpha', -0.2]],
     'rodgers': [['T_1', 2500.0], ['T_1', 300.0], ['T_3', 2500.0], ['T_5', 300.0], ['correlation_length', 1.0],
                 ['correlation_length', 20.0]],
     'iso': [['T', 300.0], ['T', 2500.0]],
@@ -647,10 +649,17 @@ def hist_fn(case):
         sig = '%s/ops=%s' % (fam, '>'.join(names))
         ok = r.check(got[0] == want[0], 'history-verdict', 'history-verdict/' + sig, live=got[0], fresh=want[0],
                      hist=case['hist'][:k + 1])
+        fin = True
         if got[0] == 'profile':
-            r.check(bool(np.all(np.isfinite(got[1])) and np.all(got[1] > 0)), 'history-finite-positive',
-                    'history-nonfinite/' + sig, got=got[1], hist=case['hist'][:k + 1])
-        if ok and got[0] == 'profile':
+            fin = bool(np.all(np.isfinite(got[1])) and np.all(got[1] > 0))
+            if not fin and fam == 'guillot' and not (0.0 <= net.get('alpha', 0.3) <= 1.0) and \
+                    bool(np.any(np.isnan(got[1]))):
+                # the recorded defect of the constructor path (no validation of T^4), reached through the setter
+                r.check(False, 'rejects-unphysical', 'guillot/accepted-unphysical/alpha-outside-0-1/returned-nan',
+                        got=got[1], hist=case['hist'][:k + 1])
+            else:
+                r.check(fin, 'history-finite-positive', 'history-nonfinite/' + sig, got=got[1], hist=case['hist'][:k + 1])
+        if ok and got[0] == 'profile' and fin:
             ok = r.eq(got[1], want[1], 'history-independence', 'history/' + sig, rtol=1e-12, hist=case['hist'][:k + 1])
             r.observe(got[1])
         else:
